@@ -809,6 +809,58 @@ func checkC16(c *ctx) {
 			c.R.Add(vc.Violation{Property: "C16", Case: "tree/" + p, Why: "cff ./... removed a file: " + p, Obs: map[string]string{"clause": "footprint"}})
 		}
 	}
+	// ---- (c'') -file selects files by name: a package whose file names are
+	// suffixes of one another (flow.go, subflow.go, a_flow.go); selecting one
+	// writes that one's output only, also with an explicit output path.
+	{
+		sdir := newScratch(work, "sfx")
+		src := func(k int) string {
+			return fmt.Sprintf("//go:build cff\n\npackage sfx\n\nimport (\n\t\"context\"\n\n\t\"go.uber.org/cff\"\n)\n\nfunc Run%d(ctx context.Context, n int) (s string, err error) {\n\terr = cff.Flow(ctx,\n\t\tcff.Params(n),\n\t\tcff.Results(&s),\n\t\tcff.Task(func(i int) (string, error) { return string(rune('a' + (i+%d)%%26)), nil }),\n\t)\n\treturn\n}\n", k, k)
+		}
+		names := []string{"flow.go", "subflow.go", "a_flow.go", "w.go", "flow.go.go"}
+		for i, variant := range []string{"plain", "explicit-output"} {
+			rel := fmt.Sprintf("v%d/sfx", i)
+			for k, fn := range names {
+				writeFile(filepath.Join(sdir, rel, fn), src(k))
+			}
+			vc.Run(sdir, vc.Env(), "go", "list", "-tags", "cff", "./...")
+			before := snapshot(sdir)
+			want := filepath.Join(rel, "flow_gen.go")
+			args := []string{"-quiet", "-file", "flow.go", "./" + rel}
+			if variant == "explicit-output" {
+				want = filepath.Join(rel, "custom_out.go")
+				args = []string{"-quiet", "-file", "flow.go=" + filepath.Join(sdir, want), "./" + rel}
+			}
+			tr := runTool(sdir, cff, args...)
+			cr, ch, rm := diffSnap(before, snapshot(sdir))
+			evals++
+			distinct["file-name-suffixes:"+variant] = true
+			if tr.Exit != 0 {
+				c.R.Add(vc.Violation{Property: "C16", Case: "suffix/" + variant, Why: fmt.Sprintf("cff -file flow.go exited %d on a package with files %v: %s", tr.Exit, names, vc.Tail(tr.Stderr, 400)), Obs: map[string]string{"clause": "footprint"}})
+				continue
+			}
+			got := false
+			for _, p := range cr {
+				if p == want {
+					got = true
+					b, _ := os.ReadFile(filepath.Join(sdir, p))
+					if !strings.Contains(string(b), "func Run0(") {
+						c.R.Add(vc.Violation{Property: "C16", Case: "suffix/" + variant, Why: "the output written for -file flow.go does not hold flow.go's function Run0: " + firstLines(string(b), 12), Obs: map[string]string{"clause": "footprint"}})
+					}
+					continue
+				}
+				c.R.Add(vc.Violation{Property: "C16", Case: "suffix/" + variant + "/" + p, Why: fmt.Sprintf("cff -file flow.go (%s) created %s; only %s is the documented output of the selected file (the package also has %v)", variant, p, want, names[1:]), Obs: map[string]string{"clause": "footprint"}})
+			}
+			if !got {
+				c.R.Add(vc.Violation{Property: "C16", Case: "suffix/" + variant, Why: "cff -file flow.go exited 0 but did not write " + want, Obs: map[string]string{"clause": "footprint"}})
+			}
+			for _, p := range append(ch, rm...) {
+				if p != "go.mod" && p != "go.sum" {
+					c.R.Add(vc.Violation{Property: "C16", Case: "suffix/" + variant + "/" + p, Why: "cff -file flow.go changed or removed " + p, Obs: map[string]string{"clause": "footprint"}})
+				}
+			}
+		}
+	}
 	cov := map[string]interface{}{
 		"evaluations":         evals,
 		"distinct_nontrivial": len(distinct),
